@@ -530,3 +530,128 @@ Lemma get_files_spec vars :
 Proof.
   unfold get_files. simpl. destruct (sep_dict separate [] vars ([], [])). reflexivity.
 Qed.
+
+(* ================= P4: separate / fill round trip ================= *)
+Lemma seg_eqb_eq a b : seg_eqb a b = true <-> a = b.
+Proof.
+  destruct a, b; simpl; split; intro H; try discriminate; try congruence.
+  - apply String.eqb_eq in H. congruence.
+  - inversion H. apply String.eqb_refl.
+  - apply Nat.eqb_eq in H. congruence.
+  - inversion H. apply Nat.eqb_refl.
+Qed.
+
+Lemma path_eqb_eq a : forall b, path_eqb a b = true <-> a = b.
+Proof.
+  induction a as [|x a IH]; intros [|y b]; simpl; split; intro H; try discriminate; try reflexivity.
+  - apply andb_true_iff in H as [H1 H2]. apply seg_eqb_eq in H1. apply IH in H2. congruence.
+  - inversion H; subst. apply andb_true_iff. split; [apply seg_eqb_eq | apply IH]; reflexivity.
+Qed.
+
+Lemma find_exists {X} (f : X -> bool) l x : In x l -> f x = true -> exists y, find f l = Some y.
+Proof.
+  induction l as [|a r IH]; simpl; intros I E; [destruct I|].
+  destruct (f a) eqn:Fa; [eauto|]. destruct I as [I|I]; [subst; congruence | auto].
+Qed.
+
+Lemma map_find_sound ups files p id :
+  map_find (files, expected_map ups files 0) p = Some id -> In (p, id) ups.
+Proof.
+  unfold map_find. destruct (find _ _) as [[i ps]|] eqn:F; [|discriminate]. simpl. intro N.
+  apply find_some in F as [I E]. simpl in E. apply existsb_exists in E as [q [Iq Eq]].
+  apply path_eqb_eq in Eq. subst q.
+  apply expected_map_entries in I as [j [id' [Ej [Nj P]]]]. simpl in Ej. subst j.
+  rewrite Nj in N. inversion N; subst id'. subst ps. apply in_paths_of. exact Iq.
+Qed.
+
+Lemma map_find_complete ups files p id : (forall x, In x files <-> In x (map snd ups)) ->
+  In (p, id) ups -> exists id', map_find (files, expected_map ups files 0) p = Some id'.
+Proof.
+  intros M I. assert (If : In id files) by (apply M; apply in_map_iff; exists (p, id); auto).
+  apply In_nth_error in If as [j Nj].
+  assert (Ie : In (j, paths_of id ups) (expected_map ups files 0))
+    by (apply expected_map_entries; exists j, id; auto).
+  destruct (find_exists (fun e : nat * list path => existsb (path_eqb p) (snd e)) _ _ Ie) as [[i ps] F].
+  { simpl. apply existsb_exists. exists p. split; [apply in_paths_of; exact I | apply path_eqb_eq; reflexivity]. }
+  unfold map_find. rewrite F. simpl.
+  apply find_some in F as [I2 _]. apply expected_map_entries in I2 as [j' [id' [Ej [Nj' _]]]].
+  simpl in Ej. subst j'. exists id'. exact Nj'.
+Qed.
+
+Lemma get_at_app q : forall r t, get_at (q ++ r) t =
+  match get_at q t with Some x => get_at r x | None => None end.
+Proof.
+  induction q as [|s q IH]; intros r t; simpl; [reflexivity|].
+  destruct s, t; try reflexivity.
+  - destruct (vlookup k kv); [apply IH | reflexivity].
+  - destruct (nth_error l i); [apply IH | reflexivity].
+Qed.
+
+Lemma vlookup_in k kv x : vlookup k kv = Some x -> In (k, x) kv.
+Proof.
+  induction kv as [|[k' y] r IH]; simpl; [discriminate|].
+  destruct (String.eqb k' k) eqn:E; intro H.
+  - apply String.eqb_eq in E. inversion H; subst. left. reflexivity.
+  - right. auto.
+Qed.
+
+Lemma wf_sub q : forall t0 t, wf_keys t0 = true -> get_at q t0 = Some t -> wf_keys t = true.
+Proof.
+  induction q as [|s q IH]; intros t0 t W G; simpl in G; [inversion G; subst; exact W|].
+  destruct s, t0; try discriminate; simpl in W.
+  - destruct (vlookup k kv) as [x|] eqn:V; [|discriminate]. apply andb_true_iff in W as [_ W].
+    rewrite forallb_forall in W. apply (IH x t); [|exact G]. apply (W (k, x)). apply vlookup_in. exact V.
+  - destruct (nth_error l i) as [x|] eqn:N; [|discriminate]. rewrite forallb_forall in W.
+    apply (IH x t); [|exact G]. apply W. eapply nth_error_In. exact N.
+Qed.
+
+Definition fill_ok (st : sstate) (t0 t : vt) : Prop :=
+  forall q, get_at q t0 = Some t -> fill st q (null_uploads t) = t.
+
+Lemma fill_list_ok st t0 q l : Forall (fill_ok st t0) l -> forall i0,
+  (forall j x, nth_error l j = Some x -> get_at (q ++ [SIdx (i0 + j)]) t0 = Some x) ->
+  fill_list (fill st) q i0 (map null_uploads l) = l.
+Proof.
+  induction 1 as [|x r Hx Hr IH]; intros i0 G; simpl; [reflexivity|]. f_equal.
+  - apply Hx. specialize (G 0 x eq_refl). rewrite Nat.add_0_r in G. exact G.
+  - apply IH. intros j y N. replace (S i0 + j) with (i0 + S j) by lia. apply G. exact N.
+Qed.
+
+Lemma fill_dict_ok st t0 q kv : Forall (fun e => fill_ok st t0 (snd e)) kv ->
+  (forall k x, In (k, x) kv -> get_at (q ++ [SKey k]) t0 = Some x) ->
+  fill_dict (fill st) q (map (fun e : string * vt => let (k, v) := e in (k, null_uploads v)) kv) = kv.
+Proof.
+  induction 1 as [|[k x] r Hx Hr IH]; intros G; simpl; [reflexivity|]. f_equal.
+  - f_equal. apply Hx. apply G. left. reflexivity.
+  - apply IH. intros k' y I. apply G. right. exact I.
+Qed.
+
+Lemma fill_subtree t0 files : wf_keys t0 = true ->
+  NoDup files -> (forall x, In x files <-> In x (map snd (uploads_at [] t0))) ->
+  forall t, fill_ok (files, expected_map (uploads_at [] t0) files 0) t0 t.
+Proof.
+  intros W ND M. set (st := (files, expected_map (uploads_at [] t0) files 0)).
+  induction t using vt_ind2; intros q G; cbn [null_uploads fill]; try reflexivity.
+  - destruct j; try reflexivity.
+    destruct (map_find st q) as [id|] eqn:F; [|reflexivity]. exfalso.
+    apply map_find_sound in F. apply (map_lists_exactly t0 W) in F. congruence.
+  - assert (I : In (q, i) (uploads_at [] t0)) by (apply (map_lists_exactly t0 W); exact G).
+    destruct (map_find_complete _ files q i M I) as [id' F]. fold st in F. rewrite F.
+    apply map_find_sound in F. apply (map_lists_exactly t0 W) in F. congruence.
+  - f_equal. apply (fill_list_ok st t0 q l H 0). intros j x N. simpl.
+    rewrite get_at_app, G. simpl. rewrite N. reflexivity.
+  - f_equal. apply (fill_dict_ok st t0 q kv H). intros k x I.
+    rewrite get_at_app, G. simpl.
+    assert (Wk : wf_keys (VDict kv) = true) by (eapply wf_sub; eauto).
+    simpl in Wk. apply andb_true_iff in Wk as [U _].
+    rewrite (unique_vlookup kv U k x I). reflexivity.
+Qed.
+
+(* substituting each file back at the paths the map lists reproduces the tree *)
+Lemma separate_fill_roundtrip t : wf_keys t = true -> forall nulled st,
+  separate [] t ([], []) = (nulled, st) -> fill st [] nulled = t.
+Proof.
+  intros W nulled st S. destruct (separate_characterised t []) as [files [fmap [E [ND [M F]]]]].
+  rewrite E in S. inversion S; subst nulled st. subst fmap.
+  apply (fill_subtree t files W ND M t []). reflexivity.
+Qed.
